@@ -89,7 +89,9 @@ TStep ==
               <<C!SourceSafeP(old, obs), "SourceSafe">>,
               <<lab \notin {"return", "fail"} \/ C!SourceUntouchedP(R.op, IF lab = "fail" THEN "failed" ELSE "ok", srcAtStart, obs),
                 "SourceUntouchedOnFailure">>,
-              <<lab # "return" \/ C!CompletedP(R.op, R.keep, "ok", obs), "Completed">> >>)
+              <<lab # "return" \/ C!CompletedP(R.op, R.keep, "ok", obs), "Completed">>,
+              \* the Reader object that performed the call, re-opened, still exposes the recording
+              <<lab # "return" \/ R.reopen \in {"ok", "skip"}, "ReaderFollows">> >>)
     /\ pos' = pos + 1 /\ UNCHANGED tid
 
 \* constructor lookup on one directory: R.resolved[e] = binary that Reader(entry e) opened ("none", "skip", "wrong")
